@@ -119,7 +119,7 @@ def run(ctx: vlib.Ctx):
                                           "C17_binding_refuted", "C17_clean_id_refuted", "C17_shard_sound", "C17_binding", "C17_first_import_wins_refuted",
                                           "C17_prepopulated_refuted", "C17_not_at_qualname_refuted", "C17_local_root_refuted",
                                           "C17_binding_chain_refuted", "C17_binding_ok_sound", "C17_assembly_ok_sound", "C17_render_named", "C17_render_chain"])
-    ctx.coqchk(["VerifProps.C17_closed"])
+    ctx.coqchk(["VerifProps.C17_closed", "VerifProps.C17_cleanid"])
     ctx.trusted += [
         "harness/c17_translate.py: Python ast -> Closed.v AST (fail-closed; interning of names is injective by construction); "
         "the abstraction itself: expressions = tree of loaded names, attribute access / calls / operators never bind names",
@@ -465,6 +465,43 @@ def clean_id_corr(ctx):
         ctx.correspondence("clean_id-model-vs-implementation", len(cases), len(bad), str([strs[i] for i in bad[:10]]))
         if bad:
             ctx.not_shown("correspondence clean_id", f"inputs {[strs[i] for i in bad[:10]]}")
+    ctx.count(n=len(cases))
+    k41_corr(ctx)
+
+
+def k41_corr(ctx):
+    """translated kernel K41 (clean_id as a character map) vs the real clean_id: every code point below 0x3000 alone and
+    after a letter (thorough: also in front of a digit), plus random strings"""
+    import random
+    from mashumaro.core.meta.types.common import clean_id
+    ctx.theorems("props/C17_cleanid.vo", ["C17_clean_id_identifier", "C17_clean_id_length", "C17_clean_id_kernel_refuted"], kernels=["K41"])
+    if not ctx.kernel_report.get("K41", {}).get("ok"):
+        return
+    rng = random.Random(f"c17-k41-{ctx.seed}")
+    strs = []
+    for cp in range(0x3000):
+        strs.append(chr(cp))
+        strs.append("a" + chr(cp))
+        if not ctx.quick():
+            strs.append(chr(cp) + "1")
+    alphabet = "abzAZ09_.<>-[], '\"\\/:+*()!~\x7f\x01\u00b2\u00e9\u0660\u0966\u2160\u2028\u00aa\u0300\u2f00"
+    for _ in range(ctx.budget(400, 4000)):
+        strs.append("".join(rng.choice(alphabet) for _ in range(rng.randrange(0, 10))))
+
+    def lst(x):
+        return "[" + "; ".join(str(ord(ch)) for ch in x) + "]%N"
+    cases = [f"({lst(x)}, {lst(clean_id(x))})" for x in strs]
+    bad, log = vlib.coq_bad_idx(f"c17_k41_{ctx.seed}", "", "From VerifGen Require Import K41.", "", cases,
+                                "fun c => if list_eq_dec N.eq_dec (K41.clean_id (fst c)) (snd c) then true else false",
+                                "list N * list N", shard=7000, needs=["gen/K41.vo"])
+    name = "K41 (clean_id translated as a character map) vs mashumaro clean_id: all code points below 0x3000 + random strings"
+    if bad is None:
+        ctx.correspondence(name, len(cases), -1, log)
+        ctx.not_shown("translation validation K41", log)
+    else:
+        ctx.correspondence(name, len(cases), len(bad), str([strs[i] for i in bad[:8]]))
+        if bad:
+            ctx.not_shown("translation validation K41", f"inputs {[strs[i] for i in bad[:8]]!r}")
     ctx.count(n=len(cases))
 
 
